@@ -222,3 +222,102 @@ def label_alignment(itf):
                     yield "W4", f"{fname}|{n.func.attr}", n.lineno, f"`{ast.unparse(n)[:80]}` aligns on index labels on the result path"
                 if t in ("pd.DataFrame", "pandas.DataFrame") and fname == "_create_input_data":
                     yield "W4", f"{fname}|DataFrame-of-series", n.lineno, f"`{ast.unparse(n)[:80]}` builds a frame from the caller's Series (label-aligned) where columns must be taken positionally"
+
+
+# ------------------------------------------------------------------ ids built by arithmetic on another id
+ORDER_SENSITIVE = {"cumsum", "cumprod", "arange", "argsort", "rank", "cumcount", "searchsorted", "unique", "roll", "diff", "shift", "enumerate"}
+
+
+def grouping_id_arithmetic(mod, fd):
+    """An id formed as <id of the row> (+|*) <number> is collision-free and independent of the other rows only
+    if <number> is per-entity state: a constant, or a mapping / counter subscripted by an id of the *current*
+    row.  A scalar that is updated while scanning the rows, or a cumulative / positional whole-column
+    operation, makes the new id depend on rows of other groups (and collide with their ids).
+    yields (key, lineno, message)"""
+    params = {a.arg for a in fd.args.args}
+    loops = [n for n in walk_own(fd) if isinstance(n, ast.For)]
+    # names that hold an element of an id column for the current row
+    for loop in loops:
+        row_ids = set()
+        idx_names = set()
+        it = loop.iter
+        if isinstance(it, ast.Call) and isinstance(it.func, ast.Name) and it.func.id in ("enumerate", "zip", "range"):
+            tg = loop.target
+            elts = tg.elts if isinstance(tg, ast.Tuple) else [tg]
+            if it.func.id == "enumerate" and len(elts) == 2:
+                idx_names |= {x.id for x in ast.walk(elts[0]) if isinstance(x, ast.Name)}
+                row_ids |= {x.id for x in ast.walk(elts[1]) if isinstance(x, ast.Name)}
+            elif it.func.id == "range":
+                idx_names |= {x.id for x in ast.walk(tg) if isinstance(x, ast.Name)}
+            else:
+                row_ids |= {x.id for e in elts for x in ast.walk(e) if isinstance(x, ast.Name)}
+        elif isinstance(loop.target, ast.Name):
+            row_ids.add(loop.target.id)
+        for st in ast.walk(loop):
+            if isinstance(st, ast.Assign) and len(st.targets) == 1 and isinstance(st.targets[0], ast.Name) and isinstance(st.value, ast.Subscript) \
+                    and isinstance(st.value.value, ast.Name) and st.value.value.id in params and isinstance(st.value.slice, ast.Name) and st.value.slice.id in idx_names:
+                row_ids.add(st.targets[0].id)
+        # scalars updated inside the loop
+        mutated = set()
+        for st in ast.walk(loop):
+            if isinstance(st, ast.AugAssign) and isinstance(st.target, ast.Name):
+                mutated.add(st.target.id)
+            if isinstance(st, ast.Assign):
+                for t in st.targets:
+                    if isinstance(t, ast.Name) and t.id not in row_ids and t.id not in idx_names:
+                        # assigned inside the loop from itself or constants -> state; from row values -> per-row temp
+                        if any(isinstance(x, ast.Name) and x.id == t.id for x in ast.walk(st.value)) or isinstance(st.value, ast.Constant):
+                            mutated.add(t.id)
+        for st in ast.walk(loop):
+            if not (isinstance(st, ast.Call) and isinstance(st.func, ast.Attribute) and st.func.attr == "append" and st.args):
+                if not (isinstance(st, ast.Assign) and isinstance(st.targets[0], ast.Subscript)):
+                    continue
+                val = st.value
+            else:
+                val = st.args[0]
+            for b in ast.walk(val):
+                if isinstance(b, ast.BinOp) and isinstance(b.op, (ast.Add, ast.Sub, ast.Mult)):
+                    names = {x.id for x in ast.walk(b) if isinstance(x, ast.Name)}
+                    if not (names & row_ids):
+                        continue
+                    # operands that are bare scalar state
+                    for side in (b.left, b.right):
+                        if isinstance(side, ast.Name) and side.id in mutated and side.id not in row_ids:
+                            yield (f"{fd.name}|{ast.unparse(b)}", b.lineno, f"`{ast.unparse(b)}` builds an id from the row's own id and the scalar `{side.id}`, which is updated while scanning all rows: the number depends on rows of other groups (row order, other households) and the new id can coincide with another group's id; per-group state must be looked up by the row's id (`counter[current_id]`)")
+    # vectorised spelling: id column (+|*) cumulative / positional whole-column operation
+    la = {}
+    for st in walk_own(fd):
+        if isinstance(st, ast.Assign) and len(st.targets) == 1 and isinstance(st.targets[0], ast.Name):
+            la[st.targets[0].id] = st.value
+
+    def order_sensitive(e, depth=0):
+        for c in ast.walk(e):
+            if isinstance(c, ast.Call):
+                nm = c.func.attr if isinstance(c.func, ast.Attribute) else (c.func.id if isinstance(c.func, ast.Name) else "")
+                if nm in ORDER_SENSITIVE:
+                    return nm
+            if isinstance(c, ast.Name) and c.id in la and depth < 4 and c.id not in params:
+                r = order_sensitive(la[c.id], depth + 1)
+                if r:
+                    return r
+        return None
+
+    def mentions_param(e, depth=0):
+        for c in ast.walk(e):
+            if isinstance(c, ast.Name) and c.id in params:
+                return True
+            if isinstance(c, ast.Name) and c.id in la and depth < 4 and mentions_param(la[c.id], depth + 1):
+                return True
+        return False
+
+    in_loop = {id(x) for loop in loops for x in ast.walk(loop)}
+    for st in walk_own(fd):
+        vals = [st.value] if isinstance(st, (ast.Return, ast.Assign)) and st.value is not None else []
+        for v in vals:
+            for b in ast.walk(v):
+                if id(b) in in_loop or not (isinstance(b, ast.BinOp) and isinstance(b.op, (ast.Add, ast.Sub, ast.Mult))):
+                    continue
+                for me, other in ((b.left, b.right), (b.right, b.left)):
+                    o = order_sensitive(me)
+                    if o and mentions_param(other) and not order_sensitive(other):
+                        yield (f"{fd.name}|{ast.unparse(b)[:80]}", b.lineno, f"`{ast.unparse(b)[:80]}` builds an id from an id column and a `{o}` over the whole dataset: the running number depends on the rows of other groups and the new id can coincide with another group's id")
